@@ -130,8 +130,8 @@ Definition check_spec (c : case) : bool :=
 Definition check_guard (c : case) : bool :=
   match c with
   | CCase p drop _ values _ values2 _ _ =>
-      guard_C03_function_zero p (env_of values) drop && guard_C03_function_zero p (env_of values2) drop
-  | CHist p drop _ steps _ => forallb (fun s => guard_C03_function_zero p (env_of (fst s)) drop) steps
+      guard_C03_function_zero_tight p (env_of values) drop && guard_C03_function_zero_tight p (env_of values2) drop
+  | CHist p drop _ steps _ => forallb (fun s => guard_C03_function_zero_tight p (env_of (fst s)) drop) steps
   | CCrash => true
   end.
 
@@ -142,8 +142,11 @@ Definition check_guard (c : case) : bool :=
      * the implementation does exactly what the faithful model -- which exhibits the finding -- does (check_corr), and
      * every clause of check_spec holds except clause (d) for assignments on which the guard is false, a needed value
        is missing and a result (program / None) was returned. ---- *)
+(* round 6: the exact guard (Spec.guard_C03_function_zero_tight: only the obligations up to and including the first
+   failing one) -- with the round-2 guard an assignment whose vanishing function atom lies BEHIND the first failing
+   obligation was inside the class although the theorems (Props.C03_missing_exact_guard) cover it *)
 Definition finding_form (p : pt) (drop : list ident) (values : list (ident * Q)) (out : outcome) : bool :=
-  negb (guard_C03_function_zero p (env_of values) drop) && negb (none_missing p (env_of values) drop)
+  negb (guard_C03_function_zero_tight p (env_of values) drop) && negb (none_missing p (env_of values) drop)
   && (outcome_eqb out OProg || outcome_eqb out ONone).
 Definition spec_one_k (p : pt) (drop : list ident) (names : list ident) (values : list (ident * Q)) (out : outcome) : bool :=
   finding_form p drop values out || spec_one p drop names values out.
